@@ -1503,8 +1503,12 @@ func (m *model) checkOperationInputs(s *streamSim, name string, snap *scheduler.
 				// (checked by the routing oracle).
 				ids = ids[1:]
 			}
-			if len(ids) != w.cfg.InvDepth {
-				w.failf("C04: operation %s of Execute %s is filed under %d invocation keys, %d key extractors are configured", shortName(name), e.ActionID, len(ids), w.cfg.InvDepth)
+			depth := w.cfg.InvDepth
+			if w.cfg.MixedDepth && depth >= 1 && isPrefix("a", e.Instance) {
+				depth--
+			}
+			if len(ids) != depth {
+				w.failf("C04: operation %s of Execute %s is filed under %d invocation keys, %d key extractors apply to it", shortName(name), e.ActionID, len(ids), depth)
 			}
 			for l, id := range ids {
 				if l < len(comps) && !strings.Contains(strings.ReplaceAll(id, " ", ""), `"value":"`+comps[l]+`"`) {
